@@ -219,9 +219,14 @@ func (p *propC04) Gen(idx int) *Scenario {
 	if splitmix(uint64(idx))%8 == 0 {
 		plan = planK(5)
 	}
-	return &Scenario{V: 1, Property: "C04", Engine: "rx", Family: "flip", Seed: p.seed, Index: idx,
+	sc := &Scenario{V: 1, Property: "C04", Engine: "rx", Family: "flip", Seed: p.seed, Index: idx,
 		Media: []Medium{med}, Params: map[string]string{"file": f.name},
 		Tasks: []Task{{ID: 0, Call: "Decode", In: "m0", Read: plan}, {ID: 1, Call: "CheckIntegrity", In: "m0", Read: plan}}}
+	if splitmix(uint64(idx)^0x5bd1)%4 == 1 {
+		// the verdict of Decode must not depend on its options either
+		sc.Tasks = append(sc.Tasks, Task{ID: 2, Call: "Decode", In: "m0", Read: plan, Opts: []string{"logger", "unknownFields", "unknownMessages"}})
+	}
+	return sc
 }
 
 // genProduced: "a file that Encode produced passes CheckIntegrity" - Files with
